@@ -228,6 +228,26 @@ static std::string step(const Toks& t)
 		if (!(fabs(t2 - t1) <= 0.0005 + fmax(1e-6, 4 * ulp1))) return "BAD " + raw(f) + " " + tstr(t2) + " for " + tstr(t1);
 		return "ok";
 	}
+	if (op == "dbl" && t.size() == 2 && isInt(t[1])) {
+		// the stored double of a whole-millisecond instant, in lowest terms n / 2^k, the library's floor(t*1000+0.5) on it,
+		// and what splitUTC / toUTCString(FULL) show through it
+		ll ms = num(t[1]);
+		if (ms < MS_MIN || ms > MS_MAX) return "range";
+		double tt = (double)ms / 1000.0;
+		Date d(tt);
+		ll n = 0, k = 0;
+		if (d.time() != 0) {
+			int e;
+			double f = frexp(d.time(), &e);          // time() = f * 2^e, 0.5 <= |f| < 1
+			n = (ll)ldexp(f, 53);                     // exact: a 53-bit integer
+			k = 53 - e;
+			if (k < 0) return "err exponent";
+			while (k > 0 && n % 2 == 0) { n /= 2; k--; }
+		}
+		ll r = (ll)floor(d.time() * 1000 + 0.5);
+		String F = d.toUTCString(Date::FULL);
+		return str(n) + " " + str(k) + " " + str(r) + " " + fieldsStr(d.splitUTC()) + " " + raw(F);
+	}
 	if (op == "splitu" && t.size() == 2 && isInt(t[1])) {
 		ll us = num(t[1]);
 		if (roundMs(us) < MS_MIN || roundMs(us) > MS_MAX) return "range";
